@@ -26,6 +26,8 @@ type pubRoute struct {
 
 type pubPolicy struct {
 	Direct, ManagedOn, AllowPull, AllowDeliver, RequireActor, RequireReqID bool
+	// endpoint-scoped actor policy (actor_allow / actor_prefix)
+	ActorAllow, ActorPrefix []string
 }
 
 type pubCfg struct {
@@ -46,9 +48,53 @@ func onoff(b bool) string {
 	return "off"
 }
 
+func actorPolicyText(p pubPolicy) string {
+	t := ""
+	for _, a := range p.ActorAllow {
+		t += fmt.Sprintf("\n actor_allow %q", a)
+	}
+	for _, a := range p.ActorPrefix {
+		t += fmt.Sprintf("\n actor_prefix %q", a)
+	}
+	return t
+}
+
+// actorAllowedScoped: the endpoint-scoped actor policy, from the documentation.
+func (p pubPolicy) actorAllowedScoped(actor string) bool {
+	if len(p.ActorAllow) == 0 && len(p.ActorPrefix) == 0 {
+		return true
+	}
+	for _, a := range p.ActorAllow {
+		if actor == a {
+			return true
+		}
+	}
+	for _, a := range p.ActorPrefix {
+		if actor != "" && strings.HasPrefix(actor, a) {
+			return true
+		}
+	}
+	return false
+}
+
 func c15Config(r *vlib.Rand, backend string) pubCfg {
 	cfg := pubCfg{Backend: backend, DefBody: 2048, DefHdr: 512}
 	cfg.Pol = pubPolicy{Direct: !r.Chance(0.1), ManagedOn: !r.Chance(0.1), AllowPull: !r.Chance(0.12), AllowDeliver: !r.Chance(0.12), RequireActor: r.Chance(0.2), RequireReqID: r.Chance(0.2)}
+	if r.Chance(0.3) {
+		if r.Bool() {
+			cfg.Pol.ActorAllow = []string{"tester", "ci-bot"}
+		}
+		if r.Bool() || len(cfg.Pol.ActorAllow) == 0 {
+			cfg.Pol.ActorPrefix = []string{"deploy-"}
+		}
+		// the actor policy together with the other two audit requirements
+		if r.Bool() {
+			cfg.Pol.RequireReqID = true
+		}
+		if r.Chance(0.3) {
+			cfg.Pol.RequireActor = true
+		}
+	}
 	cfg.MaxDepth = vlib.Pick(r, []int{0, 0, 12, 30, 600, 900})
 	cfg.DropOld = cfg.MaxDepth > 0 && r.Bool()
 	var b strings.Builder
@@ -56,8 +102,8 @@ func c15Config(r *vlib.Rand, backend string) pubCfg {
 	if cfg.MaxDepth > 0 {
 		fmt.Fprintf(&b, "queue_limits { max_depth %d\n drop_policy %s }\n", cfg.MaxDepth, map[bool]string{true: "drop_oldest", false: "reject"}[cfg.DropOld])
 	}
-	fmt.Fprintf(&b, "defaults { max_body %d\n max_headers %d\n egress { https_only off\n dns_rebind_protection off }\n publish_policy { direct %s\n managed %s\n allow_pull_routes %s\n allow_deliver_routes %s\n require_actor %s\n require_request_id %s } }\n",
-		cfg.DefBody, cfg.DefHdr, onoff(cfg.Pol.Direct), onoff(cfg.Pol.ManagedOn), onoff(cfg.Pol.AllowPull), onoff(cfg.Pol.AllowDeliver), onoff(cfg.Pol.RequireActor), onoff(cfg.Pol.RequireReqID))
+	fmt.Fprintf(&b, "defaults { max_body %d\n max_headers %d\n egress { https_only off\n dns_rebind_protection off }\n publish_policy { direct %s\n managed %s\n allow_pull_routes %s\n allow_deliver_routes %s\n require_actor %s\n require_request_id %s%s } }\n",
+		cfg.DefBody, cfg.DefHdr, onoff(cfg.Pol.Direct), onoff(cfg.Pol.ManagedOn), onoff(cfg.Pol.AllowPull), onoff(cfg.Pol.AllowDeliver), onoff(cfg.Pol.RequireActor), onoff(cfg.Pol.RequireReqID), actorPolicyText(cfg.Pol))
 	q := fmt.Sprintf(" queue { backend %s }\n", backend)
 	add := func(rt pubRoute, body string) {
 		cfg.Routes = append(cfg.Routes, rt)
@@ -333,7 +379,7 @@ func c15Kinds() []invalidKind {
 
 // C15: Admin publish is validated and all-or-nothing.
 func C15(c *vlib.Ctx) {
-	c.Rule("generated configurations (pull / single-target / multi-target / managed / publish off / publish.direct off / publish.managed off / small-limit routes; defaults.publish_policy switches; max_depth 0/12/30 with reject or drop_oldest; memory and SQLite) run through the production wiring. Batches of 1-40 (thorough: up to 1000) valid items get at most one invalid item of one of 23 kinds at a generated position, on the global and on the endpoint-scoped path, with request-level causes (missing audit reason / actor / request id, disabled path, malformed JSON, unknown field, empty or >1000 items) and near-full queues. Independent validator: reject => snapshot unchanged + structured error whose item_index names the offending item; accept (200) => every item present exactly once, state queued, one resolved target, payload/headers/trace/times as published. distinct_nontrivial = distinct (backend, path kind, invalidity kind, position class, batch-size class, outcome) classes.")
+	c.Rule("generated configurations (pull / single-target / multi-target / managed / publish off / publish.direct off / publish.managed off / small-limit routes; defaults.publish_policy switches incl. actor_allow / actor_prefix; max_depth 0/12/30 with reject or drop_oldest; memory and SQLite) run through the production wiring. Batches of 1-40 (thorough: up to 1000) valid items get at most one invalid item of one of 23 kinds at a generated position, on the global and on the endpoint-scoped path, with request-level causes (audit reason, actor (absent / allowed / allowed by prefix / not allowed / case variant) and request id varied independently, disabled path, malformed JSON, unknown field, empty or >1000 items) and near-full queues. Independent validator: reject => snapshot unchanged + structured error whose item_index names the offending item; accept (200) => every item present exactly once, state queued, one resolved target, payload/headers/trace/times as published. distinct_nontrivial = distinct (backend, path kind, invalidity kind, position class, batch-size class, outcome) classes.")
 	c.Assume("item_index equality is demanded when exactly one item is invalid (validation runs in phases, so with several invalid items only membership would be checkable)")
 	dir := c.Scratch()
 	kinds := c15Kinds()
@@ -400,20 +446,51 @@ func C15(c *vlib.Ctx) {
 			// request-level causes
 			reqCause := ""
 			headers := map[string]string{"X-Hookaido-Audit-Reason": "verif run", "X-Hookaido-Audit-Actor": "tester", "X-Request-ID": "req-1"}
-			switch r.Intn(16) {
-			case 0:
-				reqCause = "missing_audit_reason"
+			// reason, actor and request id vary independently: every requirement that is
+			// in force must hold, whichever other one is satisfied
+			if r.Intn(16) == 0 {
 				delete(headers, "X-Hookaido-Audit-Reason")
-			case 1:
+			}
+			switch r.Intn(12) {
+			case 0:
 				delete(headers, "X-Hookaido-Audit-Actor")
-				if cfg.Pol.RequireActor {
-					reqCause = "missing_actor"
-				}
+			case 1:
+				headers["X-Hookaido-Audit-Actor"] = "deploy-7"
 			case 2:
+				headers["X-Hookaido-Audit-Actor"] = "intruder"
+			case 3:
+				headers["X-Hookaido-Audit-Actor"] = "Tester"
+			case 4:
+				headers["X-Hookaido-Audit-Actor"] = "ci-bot"
+			}
+			if r.Intn(8) == 0 {
 				delete(headers, "X-Request-ID")
-				if cfg.Pol.RequireReqID {
-					reqCause = "missing_request_id"
+			}
+			if scoped && (len(cfg.Pol.ActorAllow) > 0 || len(cfg.Pol.ActorPrefix) > 0) && r.Chance(0.4) {
+				// an actor the scoped policy allows, with one of the other requirements unmet
+				if len(cfg.Pol.ActorAllow) > 0 {
+					headers["X-Hookaido-Audit-Actor"] = "tester"
+				} else {
+					headers["X-Hookaido-Audit-Actor"] = "deploy-7"
 				}
+				headers["X-Hookaido-Audit-Reason"] = "verif run"
+				if r.Bool() {
+					delete(headers, "X-Request-ID")
+				}
+			}
+			actor := headers["X-Hookaido-Audit-Actor"]
+			switch {
+			case headers["X-Hookaido-Audit-Reason"] == "":
+				reqCause = "missing_audit_reason"
+			case cfg.Pol.RequireActor && actor == "":
+				reqCause = "missing_actor"
+			case cfg.Pol.RequireReqID && headers["X-Request-ID"] == "":
+				reqCause = "missing_request_id"
+			case scoped && !cfg.Pol.actorAllowedScoped(actor):
+				reqCause = "actor_not_allowed_on_scoped_path"
+			}
+			if cfg.Pol.RequireReqID && headers["X-Request-ID"] == "" && scoped && (len(cfg.Pol.ActorAllow) > 0 || len(cfg.Pol.ActorPrefix) > 0) {
+				c.Count("scoped_publishes_without_request_id_under_actor_policy", 1)
 			}
 			// item-level invalidity
 			invalidAt, invalidKindName, wantStatus := -1, "", 0
